@@ -653,6 +653,21 @@ pub fn f5() -> Fragment {
                 get(content(app("ap", vec![var("g"), E::Prim(Prim::Int)]))),
             ]));
         }
+        // a function applied from inside a rec body whose parameter is spelled like the rec
+        // binder of the caller: the callee's parameter is its own
+        {
+            let wrap = fun("wrap", &["r"], obj(vec![prop("value", var("r"))]));
+            let list = fun(
+                "list",
+                &["x"],
+                E::Rec("r".into(), Box::new(obj(vec![prop("item", E::Paren(Box::new(app("wrap", vec![var("x")])))), prop("next", arr(var("r")))]))),
+            );
+            extra.push(single(vec![wrap.clone(), list.clone(), get(content(app("list", vec![num()])))]));
+            extra.push(single(vec![get(content(app("list", vec![num()]))), list.clone(), wrap.clone()]));
+            // ... and the callee has a rec of that name itself
+            let wrap2 = fun("wrap", &["r"], obj(vec![prop("value", var("r")), prop("more", E::Rec("x".into(), Box::new(obj(vec![prop("k", arr(var("x"))), prop("v", var("r"))]))))]));
+            extra.push(single(vec![wrap2, list, get(content(app("list", vec![str_()])))]));
+        }
         // a parameter name written twice that is also the name of a declaration used elsewhere
         {
             let pick = fun("pick", &["x", "x"], var("x"));
